@@ -109,6 +109,7 @@ package activeauth
 //@   proves "challenge-sent-is-challenge-verified-and-recorded": result != nil && result.Success ==>
 //@        iaChallenge(ref(intAuthRspBytes)) === rndIfd && result.Evidence != nil && result.Evidence.Nonce === rndIfd && result.Evidence.Signature === intAuthRspBytes
 //@   proves "caller-supplied-challenge-is-the-one-sent": result != nil && result.Success && len(old(activeAuth.challenge)) > 0 ==> rndIfd === old(activeAuth.challenge)
+//@   assigns (*activeAuth.nfcSession).lastApduLogEntry, content((*activeAuth.nfcSession).apduLog), content((*activeAuth.nfcSession).sm), (*activeAuth.nfcSession).lastSW, (*activeAuth.nfcSession).lastProtected
 //@   safety all
 
 //@ func VerifyEvidence
